@@ -586,17 +586,13 @@ void check_extract(vh::Case &c, const ExtractIn &in)
   if (in.ts_present)
     carrier->put("tracestate", in.ts);
   size_t slots_before = carrier->size();
-  // what the tracestate parser itself makes of these bytes (C14 decides whether that is right)
-  List direct_state;
-  if (in.ts_present)
-    direct_state = entries(*trace::TraceState::FromHeader(in.ts));
-
   HttpTraceContext prop;
   context::Context out = prop.Extract(*carrier, caller.ctx);
   VH_CHECK(c, carrier->sets.empty() && carrier->size() == slots_before, "Extract wrote to the carrier");
   carrier.reset();  // all header storage is scribbled and freed: retained views dangle from here on
 
-  bool installed = !(out == caller.ctx);
+  bool installed   = !(out == caller.ctx);
+  bool state_empty = true;
   nostd::shared_ptr<trace::Span> span = trace::GetSpan(out);
   VH_CHECK(c, span.get() != nullptr, "GetSpan(returned context) is null");
   trace::SpanContext sc = span->GetContext();
@@ -644,9 +640,18 @@ void check_extract(vh::Case &c, const ExtractIn &in)
       VH_CHECK(c, got == *in.ts_list, "tracestate '" << vh::show(in.ts.substr(0, 200)) << "' extracted as "
                                                      << show_list(got) << ", expected " << show_list(*in.ts_list));
     else
-      VH_CHECK(c, got == direct_state, "tracestate '" << vh::show(in.ts.substr(0, 200)) << "' extracted as "
-                                                      << show_list(got) << " but TraceState::FromHeader gives "
-                                                      << show_list(direct_state));
+    {
+      // any other bytes: what the tracestate parser itself makes of them (C14 decides whether that
+      // is right), before or after trimming the header value
+      List direct = entries(*trace::TraceState::FromHeader(in.ts));
+      bool same   = got == direct;
+      if (!same)
+        same = got == entries(*trace::TraceState::FromHeader(trim(in.ts, is_ows))) ||
+               got == entries(*trace::TraceState::FromHeader(trim(in.ts, is_cspace)));
+      VH_CHECK(c, same, "tracestate '" << vh::show(in.ts.substr(0, 200)) << "' extracted as " << show_list(got)
+                                       << " but TraceState::FromHeader gives " << show_list(direct));
+    }
+    state_empty = got.empty();
     // the rest of the caller's context is still there
     if (caller.has_other)
     {
@@ -694,14 +699,14 @@ void check_extract(vh::Case &c, const ExtractIn &in)
       c.tag(std::string("tp-reject-") + r.why);
       break;
   }
-  if (r.verdict != kReject)
+  if (installed)
   {
     if (!in.ts_present)
       c.tag("ts-absent");
     else if (in.ts_list)
       c.tag(in.ts_list->size() >= 31 ? "ts-valid-31/32" : "ts-valid");
     else
-      c.tag(direct_state.empty() ? "ts-other-empty-result" : "ts-other-parsed");
+      c.tag(state_empty ? "ts-other-empty-result" : "ts-other-parsed");
   }
   unsigned dist = r.verdict != kReject ? 0 : (in.tp_present ? shape_distance(trim(in.tp, is_cspace)) : 9);
   if (r.verdict == kReject && dist <= 2)
